@@ -88,6 +88,12 @@ func (x *Exec) exprT(e ast.Expr, st *State, want types.Type) Value {
 	case *ast.ParenExpr:
 		return x.exprT(e.X, st, want)
 	case *ast.Ident:
+		if _, isNil := x.info.ObjectOf(e).(*types.Nil); isNil && want != nil {
+			if _, isSlice := want.Underlying().(*types.Slice); isSlice {
+				return x.zero(want)
+			}
+			return Sc{IntC(0)}
+		}
 		return x.ident(e, st)
 	case *ast.BasicLit:
 		return x.opaque(st, e, "literal "+e.Value)
